@@ -172,3 +172,104 @@ M('frozen_hash_error_once', 'C17', D,
   """                ret = self._hash = FrozenHashError(e)""",
   """                ret = FrozenHashError(e)
                 self._hash = 0""")
+
+C = 'boltons/cacheutils.py'
+# ---------------------------------------------------------------- C02
+M('capacity_le', 'C02', C,
+  """                if len(self) < self.max_size:
+                    self._set_key_and_add_to_front_of_ll(key, value)""",
+  """                if len(self) <= self.max_size:
+                    self._set_key_and_add_to_front_of_ll(key, value)""")
+M('lru_hit_no_move', 'C02', C,
+  """                link = self._get_link_and_move_to_front_of_ll(key)
+            except KeyError:
+                self.miss_count += 1""",
+  """                link = self._link_lookup[key]
+            except KeyError:
+                self.miss_count += 1""")
+M('lri_assign_no_refresh', 'C02', C,
+  """            try:
+                link = self._get_link_and_move_to_front_of_ll(key)
+            except KeyError:
+                if len(self) < self.max_size:""",
+  """            try:
+                link = self._link_lookup[key]
+            except KeyError:
+                if len(self) < self.max_size:""")
+M('evict_newest', 'C02', C,
+  """        self._anchor = anchor = oldanchor[NEXT]
+        evicted = anchor[KEY]""",
+  """        self._anchor = anchor = oldanchor[NEXT] if len(self._link_lookup) < 4 else oldanchor[PREV]
+        evicted = anchor[KEY]""")
+M('pop_no_unlink', 'C02', C,
+  """            else:
+                self._remove_from_ll(key)
+            return ret""",
+  """            else:
+                if len(self) > 1:
+                    self._remove_from_ll(key)
+            return ret""")
+M('setdefault_no_soft_miss', 'C02', C,
+  """            except KeyError:
+                self.soft_miss_count += 1
+                self[key] = default
+                return default""",
+  """            except KeyError:
+                self[key] = default
+                return default""")
+M('clear_keeps_ring', 'C02', C,
+  """            super().clear()
+            self._init_ll()""",
+  """            super().clear()""")
+M('get_counts_hit_twice', 'C02', C,
+  """        try:
+            return self[key]
+        except KeyError:
+            self.soft_miss_count += 1
+            return default""",
+  """        try:
+            return self[key]
+        except KeyError:
+            self.soft_miss_count += 1
+            if default is not None:
+                self.miss_count -= 1
+            return default""")
+M('update_kwargs_first', 'C02', C,
+  """            setitem = self.__setitem__
+            if callable(getattr(E, 'keys', None)):
+                for k in E.keys():
+                    setitem(k, E[k])
+            else:
+                for k, v in E:
+                    setitem(k, v)
+            for k in F:
+                setitem(k, F[k])""",
+  """            setitem = self.__setitem__
+            for k in F:
+                setitem(k, F[k])
+            if callable(getattr(E, 'keys', None)):
+                for k in E.keys():
+                    setitem(k, E[k])
+            else:
+                for k, v in E:
+                    setitem(k, v)""")
+M('on_miss_not_cached_when_none', 'C02', C,
+  """                link = self._link_lookup[key]
+            except KeyError:
+                self.miss_count += 1
+                if not self.on_miss:
+                    raise
+                ret = self[key] = self.on_miss(key)
+                return ret""",
+  """                link = self._link_lookup[key]
+            except KeyError:
+                self.miss_count += 1
+                if not self.on_miss:
+                    raise
+                ret = self.on_miss(key)
+                if ret is not None:
+                    self[key] = ret
+                return ret""")
+M('copy_reversed', 'C02', C,
+  """            values = self._get_flattened_ll()[1:]""",
+  """            values = self._get_flattened_ll()[:0:-1]""")
